@@ -257,7 +257,9 @@ where
         prior_block_metadata: Option<&BlockMetadata>,
     ) -> Option<ScanError> {
         if let Some(prev) = prior_block_metadata {
-            if block.height() != prev.block_height() + 1 {
+            // `BlockHeight + 1` saturates, so the successor is computed on the integers: a block
+            // that repeats the maximum height does not connect.
+            if u32::from(prev.block_height()).checked_add(1) != Some(u32::from(block.height())) {
                 debug!(
                     "Block height discontinuity at {:?}, previous was {:?} ",
                     block.height(),
